@@ -909,9 +909,10 @@ def _find_unit(unit, error=False):
                 # unit_table. We must parse them ALL and add them to the
                 # unit_table.
 
-                # First character of a unit is always alphabet or $.
-                # Remaining characters may include numbers.
-                regex = re.compile('[A-Z,a-z]{1}[A-Z,a-z,0-9]*')
+                # First character of a unit is always alphabet or underscore.
+                # Remaining characters may include numbers and underscores (arc_minute).
+                # The exponent of a numeric constant (1e3, 1.e-2) is not a unit name.
+                regex = re.compile(r'(?<![\d.])[A-Za-z_][A-Za-z0-9_]*')
 
                 unit_table = _UNIT_LIB.unit_table
                 prefixes = _UNIT_LIB.prefixes
